@@ -92,6 +92,11 @@ func c04CLI(c *mc.Check, x *c04Ctx) {
 		c.Broken("go build ./cmd/nebula-cert failed: %v\n%s", err, out)
 	}
 	c.Set("cli_build_s", float64(int(time.Since(t0).Seconds()*10))/10)
+	// The soft budget is shared with the lattice and the build above; the command box is granted a minimum slice after
+	// the build so that a slow build (cold cache, busy machine) does not silently empty it.
+	built := time.Now()
+	grace := mc.Pick(c, 12*time.Second, 120*time.Second)
+	cliOut := func() bool { return c.OutOfTime() && time.Since(built) > grace }
 
 	run := func(a ...string) (ok bool, output string) {
 		cm := exec.Command(bin, a...)
@@ -220,7 +225,7 @@ func c04CLI(c *mc.Check, x *c04Ctx) {
 	}
 	// P-256 nonces are random: repeat the P-256 `ca` command
 	{
-		reps := mc.Pick(c, 24, 160)
+		reps := mc.Pick(c, 16, 160)
 		var wg sync.WaitGroup
 		sem := make(chan struct{}, workers)
 		for r := 0; r < reps; r++ {
@@ -355,10 +360,24 @@ func c04CLI(c *mc.Check, x *c04Ctx) {
 	}
 	capped := false
 	{
+		// visit the requests in a fixed stride order, so that a run cut short by the budget still spreads over all CAs
+		// and all request fields instead of exhausting the first CA only
+		stride := 1009
+		gcd := func(a, b int) int {
+			for b != 0 {
+				a, b = b, a%b
+			}
+			return a
+		}
+		for len(reqs) > 0 && gcd(stride, len(reqs)) != 1 {
+			stride++
+		}
 		var wg sync.WaitGroup
 		sem := make(chan struct{}, workers)
-		for i, r := range reqs {
-			if c.OutOfTime() {
+		for k := range reqs {
+			i := (k * stride) % len(reqs)
+			r := reqs[i]
+			if cliOut() {
 				capped = true
 				break
 			}
